@@ -1,5 +1,6 @@
 (* Entry points for C15 (centring, chromosomal sex): model functions behind val -> val wrappers. *)
 From CNV Require Import Base.Prelude Base.Val Base.Str Base.QNum Model.Center Model.Sex.
+From CNV Require Spec.Center.
 
 (* a bin crosses as [chrom; start; end; gene; log2; depth|None; weight|None] *)
 Definition getBin (v : val) : option bin :=
@@ -151,6 +152,31 @@ Definition e_c15_sex (v : val) : val :=
           end
       | Some _, Some None, Some _, Some _ => VErr "Assertion"
       | _, _, _, _ => bad_input
+      end
+  | _ => bad_input
+  end.
+
+(* the hypotheses of C15_sex_bounded_noise / C15_sex_centred_noise as tests, on one sample with its true sex:
+   [eps; a; female; hap; build; gstat table; bins] ->
+   [every bin within eps; the three centres within eps; contract at chrX; contract at chrY; route at chrX (1 = both
+    statistics); route at chrY; centre of the autosomes; centre of chrX; centre of chrY|None]
+   (the decision itself is the one c15_sex returns for the same input) *)
+Definition e_c15_noise_check (v : val) : val :=
+  match v with
+  | VL [ep; lv; fm; hp; bd; gs; bs] =>
+      match getQ ep, getQ lv, getB fm, getB hp, getBuild bd, getGstat gs, getBins bs with
+      | Some eps, Some a, Some female, Some hap, Some (Some build), Some g, Some t =>
+          let gstat := gstat_of g in
+          let chry := filter (chr_y_filter t build) t in
+          let crx := sex_contract_route_x gstat hap build t in
+          let cry := sex_contract_route_y gstat build t in
+          VL [VB (Spec.Center.bounded_noise_b eps a female hap build t);
+              VB (Spec.Center.centred_noise_b (sex_centre t) eps a female hap build t);
+              VB (fst crx); VB (fst cry); VZ (snd crx); VZ (snd cry);
+              vQ (sex_centre t (autosomes t build)); vQ (sex_centre t (filter (chr_x_filter t build) t));
+              match chry with [] => VNone | _ => vQ (sex_centre t chry) end]
+      | Some _, Some _, Some _, Some _, Some None, Some _, Some _ => VErr "Assertion"
+      | _, _, _, _, _, _, _ => bad_input
       end
   | _ => bad_input
   end.
